@@ -210,11 +210,80 @@ theorem mem_generate (n : Nat) (hn : 1 ≤ n) (b : Basis) (L : List String) :
     refine ⟨t.pre, (mem_allowedShapes n hn _).mpr ⟨by rw [pre_length, hsz], t, rfl⟩, ?_⟩
     exact (mem_shapeToTrees b _ (pre_le_two t) L).mpr ⟨L0, h1, h2⟩
 
+/-! #### which shapes contribute for a given basis
+
+`generate_equations` loops over **all** shapes of `get_allowed_shapes(n)`, whatever the basis.  The theorems below say
+exactly which shapes could be left out without losing a tree: those that use an arity whose class is empty — and
+no other.  In particular the arities present in a basis need not be an initial segment of `0,1,2`: a basis without
+unary operators still needs every shape built from binary nodes and leaves. -/
+
+/-- every arity that occurs in `s` has at least one operator in `b` -/
+def usable (b : Basis) (s : List Nat) : Bool :=
+  (countArity s 0 == 0 || !b.b0.isEmpty) && (countArity s 1 == 0 || !b.b1.isEmpty) &&
+  (countArity s 2 == 0 || !b.b2.isEmpty)
+
+theorem pow_eq_zero_and (a n : Nat) : a ^ n = 0 ↔ a = 0 ∧ n ≠ 0 := by
+  induction n with
+  | zero => simp
+  | succ n ih => rw [Nat.pow_succ, Nat.mul_eq_zero, ih]; omega
+
+/-- A shape yields no tree iff it uses an arity whose class is empty. -/
+theorem shapeToTrees_eq_nil_iff (s : List Nat) (b : Basis) : shapeToTrees s b = [] ↔ usable b s = false := by
+  rw [← List.length_eq_zero_iff, length_shapeToTrees, Nat.mul_eq_zero, Nat.mul_eq_zero,
+    pow_eq_zero_and, pow_eq_zero_and, pow_eq_zero_and]
+  unfold usable
+  simp only [List.length_eq_zero_iff, Bool.and_eq_false_iff, Bool.or_eq_false_iff, beq_eq_false_iff_ne,
+    Bool.not_eq_false', List.isEmpty_iff, ne_eq]
+  constructor
+  · rintro ((⟨h, k⟩ | ⟨h, k⟩) | ⟨h, k⟩)
+    · exact Or.inl (Or.inl ⟨k, h⟩)
+    · exact Or.inl (Or.inr ⟨k, h⟩)
+    · exact Or.inr ⟨k, h⟩
+  · rintro ((⟨k, h⟩ | ⟨k, h⟩) | ⟨k, h⟩)
+    · exact Or.inl (Or.inl ⟨h, k⟩)
+    · exact Or.inl (Or.inr ⟨h, k⟩)
+    · exact Or.inr ⟨h, k⟩
+
+/-- Restricting the shape loop to the usable shapes changes nothing (same trees, same order) … -/
+theorem generate_eq_usable (n : Nat) (b : Basis) :
+    generate n b = ((allowedShapes n).filter (usable b)).flatMap fun s => shapeToTrees s b := by
+  unfold generate
+  induction allowedShapes n with
+  | nil => rfl
+  | cons s l ih =>
+    by_cases h : usable b s = true
+    · simp only [List.flatMap_cons, List.filter_cons_of_pos h, ih]
+    · have h' : usable b s = false := by simpa using h
+      simp only [List.flatMap_cons, List.filter_cons_of_neg h, ih, (shapeToTrees_eq_nil_iff s b).mpr h',
+        List.nil_append]
+
+/-- … and every usable shape is needed: leaving one out loses a tree of that shape. -/
+theorem usable_shape_needed (n : Nat) (b : Basis) (s : List Nat) (hs : s ∈ allowedShapes n)
+    (hu : usable b s = true) : ∃ L ∈ generate n b, L ∈ shapeToTrees s b := by
+  have hne : shapeToTrees s b ≠ [] := fun h => by
+    have := (shapeToTrees_eq_nil_iff s b).mp h; rw [hu] at this; cases this
+  obtain ⟨L, hL⟩ := List.exists_mem_of_ne_nil _ hne
+  exact ⟨L, List.mem_flatMap.mpr ⟨s, hs, hL⟩, hL⟩
+
+/-- A shape without unary nodes is usable for every basis that has leaves and binary operators — whether or not it
+has unary operators (the arities present need not be the lowest ones). -/
+theorem usable_of_no_unary (b : Basis) (s : List Nat) (h1 : countArity s 1 = 0) (h0 : b.b0 ≠ []) (h2 : b.b2 ≠ []) :
+    usable b s = true := by
+  unfold usable
+  simp [h1, h0, h2]
+
 /-! non-vacuity -/
 example : shapeToTrees [2, 1, 0, 0] ⟨["x", "a"], ["inv"], ["+"]⟩ =
     [["+","inv","x","x"], ["+","inv","x","a0"], ["+","inv","a0","x"], ["+","inv","a0","a1"]] := by decide
 example : IsLabeling ⟨["x", "a"], ["inv"], ["+"]⟩ [2, 1, 0, 0] ["+", "inv", "a", "a"] := by
   simp [IsLabeling, Basis.cls]
 example : (generate 3 ⟨["x", "a"], ["inv"], ["+", "*"]⟩).length = 10 := by decide
+-- a basis with an empty unary class: the binary shapes carry all trees (8 at n = 3, 64 at n = 5, none at even n)
+example : generate 3 ⟨["x"], [], ["+", "*"]⟩ = [["+", "x", "x"], ["*", "x", "x"]] := by decide
+example : (generate 3 ⟨["x", "a"], [], ["+", "*"]⟩).length = 8 := by decide
+example : (generate 5 ⟨["x", "a"], [], ["+", "*"]⟩).length = 64 ∧ (generate 4 ⟨["x", "a"], [], ["+", "*"]⟩).length = 0 := by
+  rw [generate_length, generate_length]; decide
+example : usable ⟨["x", "a"], [], ["+", "*"]⟩ [2, 0, 0] = true ∧ usable ⟨["x", "a"], [], ["+", "*"]⟩ [1, 1, 0] = false := by decide
+example : (generate 4 ⟨["x", "a"], ["inv", "exp"], []⟩).length = 16 := by rw [generate_length]; decide
 
 end ESR.C01
